@@ -15,7 +15,9 @@ from .common import hx
 
 RULE = (
 	'from VERIF_SEED: key pairs (random + boundary secrets) x peers; public keys that are non-canonical (y >= p), off the curve, on the curve '
-	'but outside the prime-order subgroup, the identity; plaintexts of 0, 1, 15, 16, 17, 1024 bytes (+ random lengths) x formats (Symbol '
+	'but outside the prime-order subgroup, the identity; every plaintext length 0..160 and 255, 256, 1000, 1023, 1024 (counted per '
+	'length class mod 16) for every encoder/decoder pair (recipient and sender, roles swapped from one length to the next) and format of '
+	'both networks incl. the delegation layout; plaintexts of 0, 1, 15, 16, 17, 1024 bytes with corruptions x formats (Symbol '
 	'current / deprecated hex / delegation; NEM current / deprecated CBC) x both networks; for Symbol every single-byte corruption of '
 	'marker, tag, nonce and ciphertext of short messages (sampled positions for long ones, all in the thorough tier), wrong-recipient and '
 	'wrong-peer decodes; truncated and malformed messages; PKCS7 and hex helpers on boundary inputs; shipped derive/cipher vectors. A case '
@@ -294,7 +296,19 @@ def _oracle_decode(public_key):
 	return 'ok', point
 
 
+_SECRET_CACHE = {}
+
+
 def oracle_shared_secret(network, secret, public_key):
+	key = (network, bytes(secret), bytes(public_key))
+	if key not in _SECRET_CACHE:
+		if len(_SECRET_CACHE) > 4096:
+			_SECRET_CACHE.clear()
+		_SECRET_CACHE[key] = _oracle_shared_secret(network, secret, public_key)
+	return _SECRET_CACHE[key]
+
+
+def _oracle_shared_secret(network, secret, public_key):
 	from .c07 import _ref_encode, _ref_expand, _ref_mul
 	status, point = _oracle_decode(public_key)
 	if 'ok' != status:
@@ -743,6 +757,64 @@ def _nem_message_round(checker, rng, size):
 		ctx.count('malformed:nem-truncated')
 
 
+SWEEP_LENGTHS = list(range(0, 161)) + [255, 256, 1000, 1023, 1024]
+
+
+def _length_sweep(checker, rng, lengths):
+	"""Every plaintext length for every encoder/decoder pair and format of both networks: what one party encodes, the recipient and
+	the sender decode to the original plaintext, the frame has the documented size and is decryptable under the reference key."""
+	from .c07 import ref_public_key
+	ctx = checker.ctx
+	marker = bytes.fromhex('FE2A8061577301E2')
+	secrets_ = {network: (rng.bytes_(32), rng.bytes_(32)) for network in ('symbol', 'nem')}
+	publics = {network: tuple(ref_public_key(network, secret) for secret in pair) for network, pair in secrets_.items()}
+	node, any_public = rng.bytes_(32), ref_public_key('symbol', rng.bytes_(32))
+	node_public = ref_public_key('symbol', node)
+	for size in lengths:
+		clear = rng.bytes_(size)
+		decoded = f'ok 1 {hx(clear)}'
+		turn = size % 2  # the two parties swap roles from one length to the next
+		residue = f'mod16={size % 16:02d}'
+		# Symbol, current and deprecated
+		sender, recipient = secrets_['symbol'][turn], secrets_['symbol'][1 - turn]
+		sender_public, recipient_public = publics['symbol'][turn], publics['symbol'][1 - turn]
+		encoder = checker.encoders['symbol'](checker.key_pair('symbol', sender))
+		for variant in ('current', 'deprecated'):
+			encoded = (encoder.encode if 'current' == variant else encoder.encode_deprecated)(checker.public_key_class(recipient_public), clear)
+			expected_size = 1 + (16 + 12 + size) * (1 if 'current' == variant else 2)
+			if len(encoded) != expected_size or 1 != encoded[0]:
+				ctx.fail('property', f'Symbol {variant} message for {size} plaintext bytes has {len(encoded)} bytes / marker {encoded[:1].hex()}, not 0x01 + {expected_size - 1}', {
+					'op': 'length', 'args': {'network': 'symbol', 'variant': variant, 'secret': sender, 'peer': recipient_public, 'clear': clear}})
+			checker.try_decode_symbol(variant, recipient, sender_public, encoded, decoded, f'recipient does not decode a {variant} message of {size} plaintext bytes')
+			checker.try_decode_symbol(variant, sender, recipient_public, encoded, decoded, f'sender does not decode its own {variant} message of {size} plaintext bytes')
+			ctx.count(f'length-class:symbol:{variant}:{residue}')
+		# Symbol delegation layout with a body of every length (the public encoder only produces 64 bytes): marker | key | tag | iv | ct
+		ephemeral = secrets_['symbol'][turn]
+		key = _key_bytes(oracle_shared_key('symbol', ephemeral, node_public))
+		iv = rng.bytes_(12)
+		cipher_text, tag = raw_gcm_encrypt(key, iv, clear)
+		request = marker + publics['symbol'][turn] + tag + iv + cipher_text
+		checker.try_decode_symbol('current', node, any_public, request, decoded, f'the node does not decode a delegation-format message of {size} plaintext bytes')
+		ctx.count(f'length-class:symbol:delegation-layout:{residue}')
+		# NEM, current and deprecated
+		sender, recipient = secrets_['nem'][turn], secrets_['nem'][1 - turn]
+		sender_public, recipient_public = publics['nem'][turn], publics['nem'][1 - turn]
+		encoder = checker.encoders['nem'](checker.key_pair('nem', sender))
+		for variant in ('current', 'deprecated'):
+			message = (encoder.encode if 'current' == variant else encoder.encode_deprecated)(checker.public_key_class(recipient_public), clear)
+			encoded = bytes(message.message)
+			expected_size = 16 + 12 + size if 'current' == variant else 32 + 16 + 16 * (size // 16 + 1)
+			if len(encoded) != expected_size or 2 != message.message_type.value:
+				ctx.fail('property', f'NEM {variant} message for {size} plaintext bytes has {len(encoded)} bytes (type {message.message_type.value}), not {expected_size} (type 2)', {
+					'op': 'length', 'args': {'network': 'nem', 'variant': variant, 'secret': sender, 'peer': recipient_public, 'clear': clear}})
+			checker.try_decode_nem(recipient, sender_public, 2, encoded, decoded, f'recipient does not decode a NEM {variant} message of {size} plaintext bytes')
+			checker.try_decode_nem(sender, recipient_public, 2, encoded, decoded, f'sender does not decode its own NEM {variant} message of {size} plaintext bytes')
+			ctx.count(f'length-class:nem:{variant}:{residue}')
+		if 0 == size % 8:
+			checker.settle()
+	checker.settle()
+
+
 def _helper_round(checker, rng):
 	"""PKCS7 and hex helpers of the model against the real padder/unpadder and binascii."""
 	import binascii
@@ -837,6 +909,9 @@ def run(ctx):
 	for _ in range(ctx.scale(30, 300)):
 		_shared_key_round(checker, rng)
 	checker.settle()
+	_length_sweep(checker, rng, SWEEP_LENGTHS)
+	if ctx.thorough:
+		_length_sweep(checker, rng, list(range(161, 420)) + [2048, 4095, 4096])
 	everything = 'thorough' == ctx.tier
 	for repeat in range(ctx.scale(2, 12)):
 		for size in SIZES + ([rng.randrange(2, 300)] if repeat else []):
